@@ -28,6 +28,7 @@ func checkC06(c *Ctx, r *Report) {
 	c06TTLDirectiveFlag(c, r, "C06.R3.ttl-directive-flag")
 	ttlNoWrap(c, r, "C06.R3.ttl-no-wrap")
 	endingConsumesLine(c, r, "C06.R6.ending-consumes-line")
+	c06SlurpEOF(c, r, "C06.R6.slurp-eof")
 }
 
 // mustPassExit is mustPass restricted to the exits accepted by isExit.
